@@ -135,6 +135,10 @@ def run(ctx):
         for _ in range(3 if ctx.quick() else 10):
             i += 1
             cases.append(exec_case(ctx, "c08_%d" % i, 1, nulls=[False], allow=[ty]))
+    # several executions of one statement, each binding its own (different) types
+    from . import c16
+    multi = [c16.history_case(ctx, "c08m_%d" % j, plan=[(j % 2, True)] * rng.randint(2, 4)) for j in range(20 if ctx.quick() else 300)]
+    ctx.diff_conn(multi, tag="C08multi", oracle=c16.oracle, nontrivial=lambda c, o: True, classify=lambda c, o: ["multi_execution"])
     ctx.diff_conn(cases, oracle=oracle, nontrivial=lambda c, o: len(c.meta["expect_calls"]) > 1,
                   classify=lambda c, o: ["params_%d" % min(len([x for x in c.meta["expect_calls"] if x.startswith("param")]), 21)] +
                                         list({"conv_" + x.split("|")[0] for x in c.meta["expect_calls"]}))
